@@ -7,6 +7,28 @@ from . import covar
 
 LEVEL = "exploration"
 IDENT = {"perm": [1, 2], "sign": [1, 1], "shift": 0}
+IDENT3 = {"perm": [1, 2, 3], "sign": [1, 1, 1], "shift": 0}
+MODEL = {2: "two", 3: "three"}
+
+
+def jobs3(tier, seed):
+    """group elements of the three-field model (6 permutations x 8 sign patterns x 3 translations = 143 non-identity
+    elements from TLC); quick: a 3-cycle combined with a reflection and a translation, and the transposition (1 3);
+    thorough: every permutation at least three times, sign patterns and translations drawn with the seed"""
+    import random
+    res = tlc.run_model("Covariance.tla", "Covariance3.cfg")
+    js = [j for j in tlc.json_lines(res["out"]) if j["kind"] == "relabel"]
+    key = lambda j: (j["g"]["perm"], j["g"]["sign"], j["g"]["shift"])
+    js.sort(key=key)
+    if tier == "quick":
+        want = [([3, 1, 2], [1, -1, 1], 1), ([3, 2, 1], [1, 1, 1], 0)]
+        return res, [j for j in js if key(j) in want]
+    rnd = random.Random(seed)
+    out = []
+    for perm in sorted({tuple(j["g"]["perm"]) for j in js}):
+        cand = [j for j in js if tuple(j["g"]["perm"]) == perm]
+        out += rnd.sample(cand, 4)
+    return res, out
 
 
 def jobs(tier):
@@ -21,42 +43,60 @@ def jobs(tier):
 def run(chk, tier, seed):
     res, js = jobs(tier)
     chk.add_model(res, label="group elements (perm, sign, shift) of the two-field model; inverse/composition facts")
+    res3, js3 = jobs3(tier, seed)
+    chk.add_model(res3, label="group elements of the three-field model (NF = 3: 6 x 8 x 3); inverse/composition facts")
     # (nucleation temperature, tolerance setting): the tight setting (errTol 1e-4) resolves relabelling effects of a few 1e-4 in vw
     tns = [(0.92, "tight")] if tier == "quick" else [(0.92, "tight"), (0.92, "default"), (0.93, "tight")]
+    tns3 = [(0.92, "tight")]
     reps = []
     for tn, st in tns:
         reps.append(dict(model="two", tn=tn, setting=st, g=IDENT))
         reps += [dict(model="two", tn=tn, setting=st, g=j["g"]) for j in js]
+    n2 = len(reps)
+    for tn, st in tns3:
+        reps.append(dict(model="three", tn=tn, setting=st, g=IDENT3))
+        reps += [dict(model="three", tn=tn, setting=st, g=j["g"]) for j in js3]
     with Pool(min(16, len(reps))) as pool:
         evs = pool.map(covar.run_one, reps, chunksize=1)
-    traces, per = [], 1 + len(js)
-    for t, (tn, st) in enumerate(tns):
-        block = evs[t * per:(t + 1) * per]
-        for k, j in enumerate(js):
-            g = j["g"]
-            traces.append({"id": "relabel_tn{}_{}_p{}_s{}_t{}".format(tn, st, "".join(map(str, g["perm"])), "".join("+" if s > 0 else "-" for s in g["sign"]), g["shift"]),
-                           "ev": [block[0], block[1 + k]], "cell": dict(tn=tn, setting=st, g=g)})
-    for tr in traces:
+
+    def mk(evs, tns, js, nf):
+        traces, per = [], 1 + len(js)
+        for t, (tn, st) in enumerate(tns):
+            block = evs[t * per:(t + 1) * per]
+            for k, j in enumerate(js):
+                g = j["g"]
+                traces.append({"id": "relabel{}_tn{}_{}_p{}_s{}_t{}".format("" if nf == 2 else nf, tn, st, "".join(map(str, g["perm"])), "".join("+" if s > 0 else "-" for s in g["sign"]), g["shift"]),
+                               "ev": [block[0], block[1 + k]], "cell": dict(tn=tn, setting=st, g=g, nf=nf)})
+        return traces
+
+    traces = mk(evs[:n2], tns, js, 2)
+    traces3 = mk(evs[n2:], tns3, js3, 3)
+    for tr in traces + traces3:
         chk.count(tr["id"])
     chk.sample(traces[0])
     vr = tlc.validate("TraceCovariance.tla", "TraceCovariance_C08.cfg", traces)
     chk.add_validation(vr, traces)
-    chk.extra.update(pipeline_runs=len(reps), group_elements=len(js), checker_cmd="tlc Covariance.tla ; tlc TraceCovariance.tla (PROP=C08)")
+    vr3 = tlc.validate("TraceCovariance.tla", "TraceCovariance_C08_NF3.cfg", traces3)
+    chk.add_validation(vr3, traces3)
+    chk.extra.update(pipeline_runs=len(reps), group_elements=len(js), group_elements_three_fields=len(js3), checker_cmd="tlc Covariance.tla (NF = 2, 3) ; tlc TraceCovariance.tla (PROP=C08; NF = 2, 3)")
     chk.rule = ("group elements = permutation x sign pattern x translation (3 vectors) of the two-field Z2 polynomial model, all 23 non-identity elements "
-                "(quick: one permutation, one reflection, one translation), each compared with the identity run; full pipeline in LTE mode")
+                "(quick: one permutation, one reflection, one translation), each compared with the identity run; full pipeline in LTE mode; "
+                "plus the three-field model (h, s, x with x following h; harness/models.py ThreeField): 143 non-identity elements from TLC, of which quick runs a 3-cycle with a "
+                "reflection and a translation and the transposition (1 3), thorough four elements per permutation (24) drawn with the seed")
     chk.assumptions += ["potential, phase guesses and field scales transformed consistently by the harness (harness/models.py TwoField.perm/sign/shift)",
-                        "three-field models are not covered (no closed-form three-field model in the harness)"]
+                        "more than three fields are not covered"]
 
 
 def replay(chk, path):
     with open(path) as f:
         tr = json.load(f)
     c = tr["cell"]
-    evs = [covar.run_one(dict(model="two", tn=c["tn"], setting=c.get("setting", "default"), g=IDENT)),
-           covar.run_one(dict(model="two", tn=c["tn"], setting=c.get("setting", "default"), g=c["g"]))]
+    nf = c.get("nf", 2)
+    evs = [covar.run_one(dict(model=MODEL[nf], tn=c["tn"], setting=c.get("setting", "default"), g=IDENT if nf == 2 else IDENT3)),
+           covar.run_one(dict(model=MODEL[nf], tn=c["tn"], setting=c.get("setting", "default"), g=c["g"]))]
     for ev in evs:
         print(json.dumps(ev)[:700])
     new = dict(tr, ev=evs)
-    vr = tlc.validate("TraceCovariance.tla", "TraceCovariance_C08.cfg", [new])
+    vr = tlc.validate("TraceCovariance.tla", "TraceCovariance_C08.cfg" if nf == 2 else "TraceCovariance_C08_NF3.cfg", [new])
     chk.add_validation(vr, [new])
     return chk.finish()
